@@ -160,7 +160,7 @@ CLAIMED = {
             "manual's defining equations (limit/skip/first/last/nth/isempty/any/all/add/range/repeat/recurse/while/until/select/"
             "reduce/foreach expansions) as program pairs with equal output streams.", "7.11",
             "Coq proof + model/implementation correspondence + defining-equation oracle"),
-    "C12": ("Theorems: the stable sort of the model returns a permutation of its input of equal length; for every comparison that is a total preorder the result is sorted and stable (each equivalence class keeps its order); sort on arrays of integers of any size is the numeric sort; group_by returns the maximal runs of equal keys of the sorted keyed list and their concatenation is what sort_by returns; min_by/max_by return an element of the input whose keys are extremal (for every class of numbers on which the order is a total preorder). Correspondence + oracle: "
+    "C12": ("Theorems: the stable sort of the model returns a permutation of its input of equal length; for every comparison that is a total preorder the result is sorted and stable (each equivalence class keeps its order); sort on arrays of integers of any size is the numeric sort; group_by returns the maximal runs of equal keys of the sorted keyed list and their concatenation is what sort_by returns; min_by/max_by return an element of the input whose keys are extremal (for every class of numbers on which the order is a total preorder); `indices($x)` on arrays and byte strings lists, increasing and each once, exactly the positions at which the window of the needle's length exists and equals the needle, overlapping occurrences included (Proofs/SearchLaws.v). Correspondence + oracle: "
             "50 documented equations (sort_by/group_by/unique_by/min_by/max_by/keys/entries/indices/flatten/transpose/paths/pick/"
             "walk/del/join/trimstr/tonumber/...) as program pairs on arrays/objects with duplicates, ties, mixed types, empties and "
             "non-string keys, plus Python references for sort/unique/indices.", "7.12",
